@@ -855,10 +855,10 @@ func (c *child) table() []reqSpec {
 		{suffix: "goroutines", kind: "goroutines", only: []string{"GET", "POST"}},
 		{suffix: "config", kind: "config", only: []string{"GET", "POST"}},
 		{suffix: "logs/system", kind: "logs", only: []string{"GET"}},
-		{suffix: "vars", kind: "expvar", class: "public", only: []string{"GET"}},
-		{suffix: "pprof/", kind: "pprof-index", class: "public", only: []string{"GET"}},
-		{suffix: "pprof/goroutine?debug=1", kind: "pprof-goroutine", class: "public", only: []string{"GET"}},
-		{suffix: "pprof/cmdline", kind: "pprof-cmdline", class: "public", only: []string{"GET"}},
+		{suffix: "vars", kind: "expvar", only: []string{"GET"}},
+		{suffix: "pprof/", kind: "pprof-index", only: []string{"GET"}},
+		{suffix: "pprof/goroutine?debug=1", kind: "pprof-goroutine", only: []string{"GET"}},
+		{suffix: "pprof/cmdline", kind: "pprof-cmdline", only: []string{"GET"}},
 	})
 	sort.SliceStable(out, func(i, j int) bool {
 		if out[i].Prefix != out[j].Prefix {
